@@ -16,12 +16,30 @@ let lane_enc args = hex_of_bytes (encode (parse_tree (List.hd args)))
 let lane_int args = hex_of_bytes (int_octets (z_of_decimal (List.hd args)))
 let lane_bool args = hex_of_bytes (bool_octets (List.hd args = "1"))
 
+(* ---- frames ---- *)
+let show_ctrl (c : ctrl) = Printf.sprintf "%s/%d/%s" (hex_of_bytes c.c_oid) (if c.c_crit then 1 else 0) (opt_hex c.c_val)
+let show_view ((mid, op), cs) = Printf.sprintf "f(%s,%s,%s)" (decimal_of_n mid) (show_tree op) (list_str show_ctrl cs)
+let show_event = function Deliver v -> show_view v | EvError -> "error" | EvPanic -> "panic"
+let rec split_chunks (bs : byte list) (sizes : int list) : byte list list =
+  match sizes with
+  | [] -> if bs = [] then [] else [bs]
+  | n :: r ->
+      let rec take k l acc = if k = 0 then (List.rev acc, l) else match l with [] -> (List.rev acc, []) | x :: t -> take (k - 1) t (x :: acc) in
+      let (c, rest) = take n bs [] in c :: split_chunks rest r
+let lane_frame args =
+  let bs = bytes_of_hex (List.nth args 0) in
+  let sizes = match args with [_] | [_; "-"] -> [] | _ :: s :: _ -> List.map int_of_string (String.split_on_char ',' s) | _ -> [] in
+  let chunks = split_chunks bs sizes in
+  let (evs, left) = framed_run_buf (decode_inner' (repaired_d max_depth)) [] chunks in
+  String.concat " " (List.map show_event evs @ [match left with Some b -> Printf.sprintf "need:%d" (List.length b) | None -> "end"])
+
 let dispatch lane args =
   match lane with
   | "parse" -> lane_parse args
   | "enc" -> lane_enc args
   | "int" -> lane_int args
   | "bool" -> lane_bool args
+  | "frame" -> lane_frame args
   | _ -> "UNKNOWN-LANE"
 
 let () =
